@@ -12,6 +12,7 @@ structure D where
   carries, and whether the root directory's local update is already done (else only /d's) -/
   chFlight : Option (Nat × View × Bool) := none
   mdir : Bool := false   -- the scratch directory /m of `mvprobe` exists (it shows up in listings of /)
+  sym : Bool := false    -- the symlink /s of `symopen` exists
 
 def nW : Nat := 4
 
@@ -24,7 +25,8 @@ def octal (n : Nat) : String := String.ofList (Nat.toDigits 8 n)
 def parseOct (t : String) : Option Nat :=
   t.foldl (fun acc c => acc.bind fun a => if c.toNat ≥ 48 && c.toNat < 56 then some (a * 8 + (c.toNat - 48)) else none) (some 0)
 
-def rootListing (d : D) : String := if d.mdir then "c:4,d:0,m:0" else "c:4,d:0"
+def rootListing (d : D) : String :=
+  "c:4,d:0" ++ (if d.mdir then ",m:0" else "") ++ (if d.sym then ",s:4" else "")
 
 def busy (d : D) (w : Nat) : Bool :=
   (d.s.ws w).stage.isSome || (d.modePark.map (·.1)) == some w || (d.chmodBlk.map (·.1)) == some w ||
@@ -92,6 +94,10 @@ def doOp (d : D) (ts : List String) : Option (D × String × List (Nat × String
     let f ← f.toNat?
     if busy d w || (d.s.ws w).fd.isSome || d.modePark.isSome || writerOf d.s nW f || readersOf d.s nW f then refused
     else some (d, "started", [(w, "ok")])
+  | ["symopen", w] => do
+    let w := (← w.toNat?) % nW
+    if busy d w || d.modePark.isSome then refused
+    else some ({ d with sym := true }, "started", [(w, "open-refused")])   -- File.Open refuses a symlink and gives the descriptor lock back
   | ["mvprobe", w, _] => do
     let w := (← w.toNat?) % nW
     if busy d w || d.modePark.isSome then refused else
